@@ -787,7 +787,7 @@ static int cmd_worker(int argc, char** argv) {
         return 2;
     }
     ::mkdir(outdir.c_str(), 0755);
-    setup_fds(outdir + "/" + prop + "-w" + std::to_string(start) + ".stderr");
+    setup_fds(outdir + "/" + prop + "-w" + std::to_string(start) + "-" + std::to_string((long)::getpid()) + ".stderr");
     auto need = sc->pool_need();
     g_isolate = need.first + need.second > 0;
     auto t0 = std::chrono::steady_clock::now();
